@@ -7,7 +7,7 @@ PROPS = {
     "C10": dict(layers=['asan-c10', 'miri-import'], configs=["ring", "aws"], configs_thorough=["ring", "aws", "ring-release"], floor=20000, abort_is_violation=True),
     "C06": dict(layers=['asan-c06'], configs=["ring", "aws"], floor=5000),
     "C11": dict(layers=['valgrind-c11'], configs=["ring", "aws"], floor=500),
-    "C14": dict(configs=["ring", "aws"], floor=500),
+    "C14": dict(configs=["ring", "aws"], floor=500, needs_cli=True),
     "C19": dict(configs=["ring", "aws"], floor=500),
     "C12": dict(configs=["ring", "aws"], floor=500),
     "C03": dict(configs=["ring", "aws"], floor=500),
